@@ -25,6 +25,55 @@ Fixpoint dty_ind' (d : dty) : P d :=
 End DtyInd.
 
 (* ------------------------------------------------------------------------------------------ *)
+(* JoinTypes is idempotent *)
+
+Definition flat_fixed (y : ty) : Prop := flat y = [y].
+
+Lemma flat_elems : forall x, Forall flat_fixed (flat x).
+Proof.
+  apply (ty_ind' (fun x => Forall flat_fixed (flat x))); simpl; intros;
+    try (repeat constructor; reflexivity).
+  apply Forall_flat_map. exact H.
+Qed.
+
+Lemma flat_map_fixed l : Forall flat_fixed l -> flat_map flat l = l.
+Proof. induction 1 as [|y l Hy _ IH]; simpl; auto. rewrite Hy, IH. reflexivity. Qed.
+
+Lemma dedup_acc_Forall (P : ty -> Prop) l : forall seen, Forall P l -> Forall P (dedup_acc seen l).
+Proof.
+  induction l as [|x l IH]; intros seen H; simpl; auto.
+  inversion H; subst. destruct (existsb (ty_eqb x) seen); auto.
+Qed.
+
+Lemma dedup_acc_idem l : forall seen, dedup_acc seen (dedup_acc seen l) = dedup_acc seen l.
+Proof.
+  induction l as [|x l IH]; intros seen; simpl; auto.
+  destruct (existsb (ty_eqb x) seen) eqn:E; auto.
+  simpl. rewrite E. rewrite IH. reflexivity.
+Qed.
+
+Lemma join_idem xs : join [join xs] = join xs.
+Proof.
+  unfold join at 2 3. set (new := dedup (flat_map flat xs)).
+  assert (Forall flat_fixed new) as Hf.
+  { apply dedup_acc_Forall. apply Forall_flat_map. apply Forall_forall. intros x _. apply flat_elems. }
+  assert (dedup new = new) as Hd by apply dedup_acc_idem.
+  assert (join [TUnion new] = match new with
+                               | [x] => x
+                               | _ => if existsb is_any new
+                                      then (if existsb is_nonetype new then TUnion [TAny; TClass none_id] else TAny)
+                                      else match new with [] => TNothing | _ => TUnion new end
+                               end) as HU.
+  { unfold join. cbn [flat_map flat]. rewrite app_nil_r, (flat_map_fixed _ Hf), Hd. reflexivity. }
+  destruct new as [|x [|y l]] eqn:En.
+  - reflexivity.
+  - inversion Hf; subst. unfold join. cbn [flat_map]. rewrite app_nil_r. rewrite H1. reflexivity.
+  - destruct (existsb is_any (x :: y :: l)) eqn:Ea.
+    + destruct (existsb is_nonetype (x :: y :: l)); reflexivity.
+    + rewrite HU. rewrite ?Ea. reflexivity.
+Qed.
+
+(* ------------------------------------------------------------------------------------------ *)
 (* functions *)
 
 Section Calls.
@@ -289,6 +338,285 @@ Proof.
     by exact (map_nth (conv_var arity) kps TNothing i).
   rewrite (filter_var_tpi_single _ (conv_var_not_tpi _) (conv_var_nonempty _ Hwf)).
   exact (emitted_ground _ Hwf).
+Qed.
+
+(* ---- conversion with a substitution = conversion of the substituted type ---- *)
+
+Definition gmem (m : ty) : list aval := match m with TNothing => [] | _ => [inst arity m] end.
+
+Lemma gmem_umembers p : flat_map gmem (umembers p) = conv_var arity p.
+Proof. destruct p; simpl; try reflexivity. Qed.
+
+Lemma conv_var_union_raw ts : conv_var arity (TUnion ts) = flat_map gmem ts.
+Proof. reflexivity. Qed.
+
+Definition inst_pos (d : dty) : bool := match d with DParam _ | DUnion _ => false | _ => true end.
+
+Lemma nth_inst_env ps i : nth i (inst_env arity ps) [] = conv_var arity (nth i ps TNothing).
+Proof. exact (map_nth (conv_var arity) ps TNothing i). Qed.
+
+Lemma dvar_subst ps : forall d, dwf arity d = true ->
+  dvar arity (inst_env arity ps) d = conv_var arity (subst_ty ps d) /\
+  (inst_pos d = true -> dinst arity (inst_env arity ps) d = inst arity (subst_ty ps d)).
+Proof.
+  set (env := inst_env arity ps).
+  apply (dty_ind' (fun d => dwf arity d = true ->
+     dvar arity env d = conv_var arity (subst_ty ps d) /\
+     (inst_pos d = true -> dinst arity env d = inst arity (subst_ty ps d)))).
+  - (* param *) intros i _. split; [|discriminate]. unfold dvar, dvar_gen. simpl. apply nth_inst_env.
+  - (* ground *) intros t _. split; reflexivity.
+  - (* generic *)
+    intros c qs IH Hwf. cbn [dwf] in Hwf.
+    apply andb_true_iff in Hwf. destruct Hwf as [Hwf Hqs]. apply andb_true_iff in Hwf. destruct Hwf as [Hc Hl].
+    apply negb_true_iff in Hc.
+    assert (dinst arity env (DGeneric c qs) = inst arity (subst_ty ps (DGeneric c qs))) as E.
+    { cbn [dinst subst_ty inst]. rewrite Hc, map_length, Hl. f_equal. f_equal.
+      rewrite map_map. apply map_ext_Forall.
+      rewrite forallb_Forall in Hqs. rewrite Forall_forall in *. intros q Hq.
+      exact (proj1 (IH q Hq (Hqs q Hq))). }
+    split; [|intros _; exact E].
+    unfold dvar, dvar_gen. fold (dinst arity env). rewrite E. reflexivity.
+  - (* tuple *)
+    intros qs IH Hwf. cbn [dwf] in Hwf.
+    assert (dinst arity env (DTuple qs) = inst arity (subst_ty ps (DTuple qs))) as E.
+    { cbn [dinst subst_ty inst]. f_equal. rewrite map_map. apply map_ext_Forall.
+      rewrite forallb_Forall in Hwf. rewrite Forall_forall in *. intros q Hq.
+      exact (proj1 (IH q Hq (Hwf q Hq))). }
+    split; [|intros _; exact E].
+    unfold dvar, dvar_gen. fold (dinst arity env). rewrite E. reflexivity.
+  - (* union *)
+    intros ts IH Hwf. cbn [dwf] in Hwf. apply andb_true_iff in Hwf. destruct Hwf as [Hts Hms].
+    split; [|discriminate].
+    cbn [subst_ty]. rewrite conv_var_union_raw, flat_map_flat_map.
+    unfold dvar, dvar_gen. fold (dinst arity env).
+    apply flat_map_ext_Forall.
+    rewrite forallb_Forall in Hts, Hms. rewrite Forall_forall in *. intros m Hm.
+    specialize (IH m Hm (Hts m Hm)). specialize (Hms m Hm). destruct IH as [IH1 IH2].
+    rewrite gmem_umembers.
+    destruct m as [i|t|c qs|qs|us].
+    + exact IH1.
+    + destruct t; try reflexivity. simpl in Hms. discriminate.
+    + rewrite (IH2 eq_refl). reflexivity.
+    + rewrite (IH2 eq_refl). reflexivity.
+    + simpl in Hms. discriminate.
+Qed.
+
+Lemma find_preload_none_sim name tch :
+  tfind_preload name tch = None -> find_preload name (map conv_link tch) = None.
+Proof.
+  induction tch as [|[k ps] tch IH]; simpl; auto.
+  destruct (lookup name (k_members k)) as [[d|mk sigs]|]; auto.
+  destruct (mentions_param d); [discriminate|auto].
+Qed.
+
+Lemma find_first_sim name tch kps m :
+  tfind_first name tch = Some (kps, m) ->
+  exists k, find_first name (map conv_link tch) = Some (k, inst_env arity kps, m).
+Proof.
+  induction tch as [|[k ps] tch IH]; simpl; [discriminate|].
+  destruct (lookup name (k_members k)) as [m0|].
+  - intros H. inversion H; subst. eexists; reflexivity.
+  - exact IH.
+Qed.
+
+Lemma single_env kps :
+  forallb single_ty kps = true -> Forall (fun vals => exists v, vals = [v]) (inst_env arity kps).
+Proof.
+  induction kps as [|p kps IH]; simpl; intros H; constructor.
+  - apply andb_true_iff in H. destruct H as [H _]. unfold single_ty in H.
+    apply andb_true_iff in H. destruct H as [Hu Hn]. apply negb_true_iff in Hu, Hn.
+    destruct p; simpl in Hu, Hn; try discriminate; eexists; reflexivity.
+  - apply IH. apply andb_true_iff in H. tauto.
+Qed.
+
+Section MethodCalls.
+Variable acc : ty -> ty -> bool.
+
+(* A method (any kind but a property) declared in a class of the chain -- the instance's own class or a generic base,
+   with the base arguments substituted along the chain -- called on an instance whose values for the declaring
+   class's parameters are single bindings (one view): the emitted type of  y = x.m(args)  is the declared return
+   type under the instance's substitution.  The return type may mention the parameters anywhere, also directly below
+   a Union. *)
+Lemma method_call_result_lemma fuel tbl c ps name kps mk s dret cl :
+  simple_tbl tbl = true ->
+  tfind_preload name (tchain fuel tbl c ps) = None ->
+  tfind_first name (tchain fuel tbl c ps) = Some (kps, MMethod mk [(s, dret)]) ->
+  mk <> KProperty ->
+  forallb single_ty kps = true -> dwf arity dret = true ->
+  sig_accepts acc s cl = true ->
+  wf_top arity (subst_ty kps dret) = true ->
+  snd (mcall_emitted arity acc fuel tbl c ps name cl) = true /\
+  nf (def_ty (fst (mcall_emitted arity acc fuel tbl c ps name cl))) = nf (subst_ty kps dret).
+Proof.
+  intros Hs Hpre Hfirst Hmk Hsingle Hdwf Hacc Hwf.
+  unfold mcall_emitted, attr_read. rewrite (chain_sim tbl Hs).
+  rewrite (find_preload_none_sim _ _ Hpre).
+  destruct (find_first_sim _ _ _ _ Hfirst) as [k ->].
+  assert (method_call arity acc (inst_env arity kps) [(s, dret)] cl = Some (conv_var arity (subst_ty kps dret))) as E.
+  { unfold method_call. rewrite (select_single (fun sd : sig * dty => sig_accepts acc (fst sd) cl)) by exact Hacc.
+    cbn [snd]. rewrite (dvar_views_single _ _ (single_env _ Hsingle)).
+    rewrite (proj1 (dvar_subst kps dret Hdwf)). reflexivity. }
+  destruct mk; try congruence; rewrite E; exact (emitted_ground _ Hwf).
+Qed.
+
+End MethodCalls.
+
+(* the same for a property *)
+Lemma property_read_lemma fixed fuel tbl c ps name kps s dret :
+  simple_tbl tbl = true ->
+  tfind_preload name (tchain fuel tbl c ps) = None ->
+  tfind_first name (tchain fuel tbl c ps) = Some (kps, MMethod KProperty [(s, dret)]) ->
+  forallb single_ty kps = true -> dwf arity dret = true ->
+  wf_top arity (subst_ty kps dret) = true ->
+  snd (read_emitted arity fixed fuel tbl c ps name) = true /\
+  nf (def_ty (fst (read_emitted arity fixed fuel tbl c ps name))) = nf (subst_ty kps dret).
+Proof.
+  intros Hs Hpre Hfirst Hsingle Hdwf Hwf.
+  unfold read_emitted, attr_read. rewrite (chain_sim tbl Hs).
+  rewrite (find_preload_none_sim _ _ Hpre).
+  destruct (find_first_sim _ _ _ _ Hfirst) as [k ->].
+  rewrite (dvar_views_single _ _ (single_env _ Hsingle)).
+  rewrite (proj1 (dvar_subst kps dret Hdwf)).
+  exact (emitted_ground _ Hwf).
+Qed.
+
+(* ---- the attribute path: TypeVar instances below containers are resolved at output time ---- *)
+
+Lemma nth_tpi env i :
+  nth i (tpi env) [] = if (i <? length env)%nat then [VTParamInst (nth i env [])] else [].
+Proof.
+  unfold tpi. destruct (i <? length env)%nat eqn:E.
+  - apply Nat.ltb_lt in E.
+    rewrite (nth_indep _ [] ((fun vals => [VTParamInst vals]) [])) by (rewrite map_length; exact E).
+    apply (map_nth (fun vals => [VTParamInst vals])).
+  - apply Nat.ltb_ge in E. apply nth_overflow. rewrite map_length. exact E.
+Qed.
+
+Lemma out_congr env : Forall (fun vals => vals <> []) env -> forall d,
+  dwf arity d = true -> no_param_union d = true ->
+  join (map (out arity) (dvar_gen arity (tpi env) (dinst arity (tpi env)) d)) = join (map (out arity) (dvar arity env d)) /\
+  (is_dparam d = false ->
+     map (out arity) (dvar_gen arity (tpi env) (dinst arity (tpi env)) d) = map (out arity) (dvar arity env d)) /\
+  (inst_pos d = true -> out arity (dinst arity (tpi env) d) = out arity (dinst arity env d)).
+Proof.
+  intros Hne.
+  apply (dty_ind' (fun d => dwf arity d = true -> no_param_union d = true ->
+    join (map (out arity) (dvar_gen arity (tpi env) (dinst arity (tpi env)) d)) = join (map (out arity) (dvar arity env d)) /\
+    (is_dparam d = false ->
+       map (out arity) (dvar_gen arity (tpi env) (dinst arity (tpi env)) d) = map (out arity) (dvar arity env d)) /\
+    (inst_pos d = true -> out arity (dinst arity (tpi env) d) = out arity (dinst arity env d)))).
+  - (* param *)
+    intros i _ _. split; [|split; discriminate].
+    unfold dvar, dvar_gen. rewrite nth_tpi. destruct (i <? length env)%nat eqn:E.
+    + apply Nat.ltb_lt in E.
+      assert (nth i env [] <> []) as Hi by (rewrite Forall_forall in Hne; apply Hne; apply nth_In; exact E).
+      cbn [map]. destruct (nth i env []) as [|v vs] eqn:Ev; [congruence|].
+      cbn [out]. fold (out arity). apply join_idem.
+    + apply Nat.ltb_ge in E. rewrite nth_overflow by exact E. reflexivity.
+  - (* ground *) intros t _ _. repeat split; reflexivity.
+  - (* generic *)
+    intros c qs IH Hwf Hnp. cbn [dwf] in Hwf. cbn [no_param_union] in Hnp.
+    apply andb_true_iff in Hwf. destruct Hwf as [_ Hqs].
+    assert (out arity (dinst arity (tpi env) (DGeneric c qs)) = out arity (dinst arity env (DGeneric c qs))) as E.
+    { cbn [dinst]. destruct (c =? type_id); [reflexivity|].
+      destruct (length qs <=? arity c)%nat; [|reflexivity].
+      cbn [out]. rewrite !map_app. rewrite !map_map.
+      assert (map (fun x => join (map (out arity) (dvar_gen arity (tpi env) (dinst arity (tpi env)) x))) qs =
+              map (fun x => join (map (out arity) (dvar_gen arity env (dinst arity env) x))) qs) as ->.
+      { apply map_ext_Forall. rewrite forallb_Forall in Hqs, Hnp. rewrite Forall_forall in *.
+        intros q Hq. exact (proj1 (IH q Hq (Hqs q Hq) (Hnp q Hq))). }
+      assert (forall n, map (fun var => join (map (out arity) var)) (repeat [VUnsolvable] n) =
+                        map (fun var => join (map (out arity) var)) (repeat [VUnsolvable] n)) by reflexivity.
+      reflexivity. }
+    assert (map (out arity) (dvar_gen arity (tpi env) (dinst arity (tpi env)) (DGeneric c qs)) =
+            map (out arity) (dvar arity env (DGeneric c qs))) as M.
+    { unfold dvar, dvar_gen. fold (dinst arity (tpi env)). fold (dinst arity env). cbn [map]. rewrite E. reflexivity. }
+    split; [rewrite M; reflexivity|split; auto].
+  - (* tuple *)
+    intros qs IH Hwf Hnp. cbn [dwf] in Hwf. cbn [no_param_union] in Hnp.
+    assert (out arity (dinst arity (tpi env) (DTuple qs)) = out arity (dinst arity env (DTuple qs))) as E.
+    { cbn [dinst out]. rewrite !map_map.
+      assert (map (fun x => join (map (out arity) (dvar_gen arity (tpi env) (dinst arity (tpi env)) x))) qs =
+              map (fun x => join (map (out arity) (dvar_gen arity env (dinst arity env) x))) qs) as ->.
+      { apply map_ext_Forall. rewrite forallb_Forall in Hwf, Hnp. rewrite Forall_forall in *.
+        intros q Hq. exact (proj1 (IH q Hq (Hwf q Hq) (Hnp q Hq))). }
+      reflexivity. }
+    assert (map (out arity) (dvar_gen arity (tpi env) (dinst arity (tpi env)) (DTuple qs)) =
+            map (out arity) (dvar arity env (DTuple qs))) as M.
+    { unfold dvar, dvar_gen. fold (dinst arity (tpi env)). fold (dinst arity env). cbn [map]. rewrite E. reflexivity. }
+    split; [rewrite M; reflexivity|split; auto].
+  - (* union *)
+    intros ts IH Hwf Hnp. cbn [dwf] in Hwf. cbn [no_param_union] in Hnp.
+    apply andb_true_iff in Hwf. destruct Hwf as [Hts Hms].
+    apply andb_true_iff in Hnp. destruct Hnp as [Hnp Hnd]. apply negb_true_iff in Hnd.
+    assert (map (out arity) (dvar_gen arity (tpi env) (dinst arity (tpi env)) (DUnion ts)) =
+            map (out arity) (dvar arity env (DUnion ts))) as M.
+    { unfold dvar, dvar_gen. fold (dinst arity (tpi env)). fold (dinst arity env).
+      rewrite !map_flat_map. apply flat_map_ext_Forall.
+      rewrite forallb_Forall in Hts, Hms, Hnp. rewrite Forall_forall in *. intros m Hm.
+      assert (is_dparam m = false) as Hdp.
+      { destruct (is_dparam m) eqn:Edp; auto.
+        assert (existsb is_dparam ts = true) by (apply existsb_exists; exists m; auto). congruence. }
+      specialize (IH m Hm (Hts m Hm) (Hnp m Hm)). destruct IH as (_ & _ & IHo). specialize (Hms m Hm).
+      destruct m as [i|t|c qs|qs|us]; try discriminate.
+      - destruct t; reflexivity.
+      - cbn [map]. rewrite (IHo eq_refl). reflexivity.
+      - cbn [map]. rewrite (IHo eq_refl). reflexivity. }
+    split; [rewrite M; reflexivity|split; [auto|discriminate]].
+Qed.
+
+Lemma emitted_container E d :
+  container_like d = true ->
+  emitted arity (Some [dinst arity E d]) = (DConst (out arity (dinst arity E d)), true).
+Proof.
+  destruct d as [i|t|c qs|qs|us]; try discriminate; intros _; cbn [dinst].
+  - destruct (c =? type_id); [reflexivity|]. destruct (length qs <=? arity c)%nat; reflexivity.
+  - reflexivity.
+Qed.
+
+Lemma dinst_container_not_tpi E d : container_like d = true -> is_tpi (dinst arity E d) = false.
+Proof.
+  destruct d as [i|t|c qs|qs|us]; try discriminate; intros _; cbn [dinst].
+  - destruct (c =? type_id); [reflexivity|]. destruct (length qs <=? arity c)%nat; reflexivity.
+  - reflexivity.
+Qed.
+
+Lemma nonempty_env kps :
+  forallb (nonempty_ty arity) kps = true -> Forall (fun vals => vals <> []) (inst_env arity kps).
+Proof.
+  induction kps as [|p kps IH]; simpl; intros H; constructor.
+  - apply andb_true_iff in H. destruct H as [H _]. unfold nonempty_ty in H.
+    destruct (conv_var arity p); [discriminate|intros E; discriminate E].
+  - apply IH. apply andb_true_iff in H. tauto.
+Qed.
+
+(* An attribute whose declared type is a container / tuple with type parameters anywhere below it (list[T],
+   dict[str, list[T]], tuple[T, S], list[Union[set[T], None]], ...; no parameter DIRECTLY below a Union), declared in
+   a class of the chain: the TypeVar instances the conversion leaves below the container are resolved by output.py by
+   full name, so BOTH variants of _filter_var give the declared type under the instance's substitution. *)
+Lemma attr_nested_typevar_read_lemma fixed fuel tbl c ps name kps d :
+  simple_tbl tbl = true ->
+  tfind_preload name (tchain fuel tbl c ps) = Some (kps, d) ->
+  container_like d = true -> dwf arity d = true -> no_param_union d = true ->
+  forallb (nonempty_ty arity) kps = true ->
+  wf_top arity (subst_ty kps d) = true ->
+  snd (read_emitted arity fixed fuel tbl c ps name) = true /\
+  nf (def_ty (fst (read_emitted arity fixed fuel tbl c ps name))) = nf (subst_ty kps d).
+Proof.
+  intros Hs Hpre Hc Hdwf Hnp Hne Hwf.
+  unfold read_emitted, attr_read. rewrite (chain_sim tbl Hs).
+  destruct (proj2 (find_preload_sim name (tchain fuel tbl c ps)) kps d Hpre) as [k ->].
+  set (top := top_env fixed _ _ _ _).
+  assert (dvar_attr arity (tpi top) (tpi (inst_env arity kps)) d = [dinst arity (tpi (inst_env arity kps)) d]) as ->
+    by (destruct d; try discriminate; reflexivity).
+  unfold filter_var. cbn [existsb]. rewrite (dinst_container_not_tpi _ d Hc). cbn [orb].
+  rewrite (emitted_container _ d Hc).
+  pose proof (emitted_ground _ Hwf) as Hg.
+  assert (conv_var arity (subst_ty kps d) = [dinst arity (inst_env arity kps) d]) as Ecv.
+  { rewrite <- (proj1 (dvar_subst kps d Hdwf)). destruct d; try discriminate; reflexivity. }
+  rewrite Ecv, (emitted_container _ d Hc) in Hg.
+  rewrite (proj2 (proj2 (out_congr _ (nonempty_env _ Hne) d Hdwf Hnp))) by (destruct d; try discriminate; reflexivity).
+  exact Hg.
 Qed.
 
 End Classes.
